@@ -59,6 +59,10 @@ func (g *genCfg) lon(r *rand.Rand) string {
 }
 
 func (g *genCfg) fieldVal(r *rand.Rand) string {
+	if r.Intn(12) == 0 {
+		// a string (sent as a JSON string literal) whose text would read as another kind
+		return []string{fmt.Sprintf(`"%d"`, g.uniq()), `"true"`, `"false"`, `"null"`, fmt.Sprintf(`"{\"q\":%d}"`, g.uniq()), fmt.Sprintf(`" pad%d "`, g.uniq()), `"0"`}[r.Intn(7)]
+	}
 	switch r.Intn(9) {
 	case 0:
 		return "0"
